@@ -108,14 +108,16 @@ def shape(e, roles=None, depth=20):
         return "upvar#%d" % e.idx
     if isinstance(e, Const):
         if e.fn:
-            return "fn:%s" % nice(e.fn)
+            lam = lambda_shape(getattr(e, "owner", None), e.fn, False, depth) if e.c.get("fn_local") else None
+            return lam if lam is not None else "fn:%s" % nice(e.fn)
         if e.int is not None:
             return str(e.int)
         sv = e.str_value()
         if sv is not None:
             return repr(sv)
         if e.c.get("uneval"):
-            return nice(e.c["uneval"])
+            v = const_value_shape(getattr(e, "owner", None), e.c)
+            return v if v is not None else nice(e.c["uneval"])
         return e.s.replace("const ", "")
     if isinstance(e, Field):
         inner = e.x
@@ -128,11 +130,20 @@ def shape(e, roles=None, depth=20):
             while isinstance(base, Named) and base.local not in roles:
                 base = base.x
             if isinstance(base, Call) and nice(base.callee) == "Try::branch" and inner.variant == "Continue":
+                arg = base.args[0]
+                while isinstance(arg, (Named, Ref, Deref)) and not (isinstance(arg, Named) and arg.local in roles):
+                    arg = arg.x
+                if isinstance(arg, Var) and getattr(arg, "ok_payload", None) is not None and arg.local not in roles:
+                    return shape(arg.ok_payload, roles, depth - 1)  # `?` on a value built as Ok(p)/Some(p) at one place: p
                 return "try(%s)" % shape(base.args[0], roles, depth - 1)
             return "%s(%s)" % (inner.variant.lower(), shape(inner.x, roles, depth - 1))
         return "%s.%s" % (shape(e.x, roles, depth - 1), e.name)
     if isinstance(e, Index):
-        return "%s[%s]" % (shape(e.x, roles, depth - 1), shape(e.i, roles, depth - 1))
+        xs = shape(e.x, roles, depth - 1)
+        is_ = shape(e.i, roles, depth - 1)
+        if is_ == "RangeFull{}" and xs.startswith("array("):
+            return xs  # the full slice of a constant array is that array
+        return "%s[%s]" % (xs, is_)
     if isinstance(e, Downcast):
         return "%s@%s" % (shape(e.x, roles, depth - 1), e.variant)
     if isinstance(e, Cast):
@@ -160,7 +171,8 @@ def shape(e, roles=None, depth=20):
                 n += "::" + e.variant
             return "%s{%s}" % (n, ",".join("%s:%s" % (f, shape(o, roles, depth - 1)) for f, o in zip(e.fields or [], e.ops)))
         if e.ak == "closure":
-            return "closure:%s" % nice(e.closure)
+            lam = lambda_shape(getattr(e, "owner", None), e.closure, True, depth)
+            return lam if lam is not None else "closure:%s" % nice(e.closure)
         return "%s(%s)" % (e.ak, ",".join(shape(o, roles, depth - 1) for o in e.ops))
     if isinstance(e, Call):
         c = e.callee
@@ -177,7 +189,10 @@ def shape(e, roles=None, depth=20):
         if cid == "mem::size_of" and e.t.get("callee_args"):
             return "size_of<%s>" % short_ty(e.t["callee_args"][0])
         if nice(c) in ("Index::index", "IndexMut::index_mut") and len(e.args) == 2:
-            return "%s[%s]" % (shape(e.args[0], roles, depth - 1), shape(e.args[1], roles, depth - 1))
+            xs, is_ = shape(e.args[0], roles, depth - 1), shape(e.args[1], roles, depth - 1)
+            if is_ == "RangeFull{}" and xs.startswith("array("):
+                return xs
+            return "%s[%s]" % (xs, is_)
         parts = [shape(a, roles, depth - 1) for a in e.args]
         if cid in ("PartialEq::eq", "PartialEq::ne") and len(parts) == 2 and parts[1] < parts[0]:
             parts.reverse()  # equality is symmetric
@@ -188,6 +203,98 @@ def shape(e, roles=None, depth=20):
 
 
 import re as _re
+
+_LAMBDA_CACHE = {}
+
+
+def const_value_shape(owner, c):
+    """Small constants print by value, so that a literal, a promoted temporary and a named `const`
+    item of the same value look the same: integers as numbers, strings quoted, arrays/slices of
+    up to 8 integers or chars as `array(v1,v2,...)`. Larger tables keep their path name."""
+    if owner is None:
+        return None
+    facts = owner.facts
+    path = c.get("uneval")
+    if c.get("promoted") is not None:
+        pb = facts.promoted_of(path, c["promoted"])
+        if pb is None:
+            return None
+        vals = None
+        for bi, si, st, it in pb.locations():
+            if not it and st["k"] == "assign" and st["rv"]["k"] == "agg" and st["rv"].get("ak") == "array":
+                if vals is not None:
+                    return None
+                vals = []
+                for o in st["rv"]["ops"]:
+                    if o["k"] != "const" or o["c"].get("int") is None:
+                        return None
+                    vals.append(o["c"]["int"])
+        if vals is not None and 0 < len(vals) <= 8:
+            return "array(%s)" % ",".join(str(v) for v in vals)
+        return None
+    k = facts.consts.get(path)
+    if k is None:
+        return None
+    if k.get("int") is not None:
+        return str(k["int"])
+    ty = k.get("ty", "")
+    a = k.get("alloc") or {}
+    data = a["ptrs"][0]["alloc"].get("bytes") if a.get("ptrs") else a.get("bytes")
+    if data is None:
+        return None
+    if ty.endswith("str"):
+        try:
+            return repr(bytes(data).decode("utf-8")) if len(data) <= 64 else None
+        except UnicodeDecodeError:
+            return None
+    m = _re.match(r"^&(?:'static )?\[(char|u8|u16|u32|u64|usize|i8|i16|i32|i64)(?:; \d+)?\]$", ty)
+    if m:
+        w = {"char": 4, "u8": 1, "i8": 1, "u16": 2, "i16": 2, "u32": 4, "i32": 4, "u64": 8, "i64": 8, "usize": 8}[m.group(1)]
+        n = len(data) // w
+        if 0 < n <= 8:
+            return "array(%s)" % ",".join(str(int.from_bytes(bytes(data[i * w:(i + 1) * w]), "little", signed=m.group(1).startswith("i"))) for i in range(n))
+    return None
+
+
+def lambda_shape(owner, path, is_closure, depth=20):
+    """Canonical, name-free form of a *simple* callable: a closure - or a function of the crate that is
+    new with respect to the reference table - whose body is one straight-line expression. Printed
+    as `\u03bb(<shape of the result>)` with the parameters written p1, p2, ...; captured values keep
+    the `^<expression>` form. Anything else (branches, loops, several results) keeps its path name."""
+    if owner is None or depth < 4:
+        return None
+    facts = owner.facts
+    key = (id(facts), path)
+    if key in _LAMBDA_CACHE:
+        return _LAMBDA_CACHE[key]
+    _LAMBDA_CACHE[key] = None  # recursion guard
+    b = facts.body(path, required=False)
+    out = None
+    if b is not None:
+        if not is_closure:
+            import normalize
+            if path in normalize.baseline():
+                return None
+        simple = not any(b.blocks[x]["term"]["k"] == "switch" for x in range(len(b.blocks)) if not b.blocks[x]["cleanup"])
+        # no side effects through references or captured places, and a value to speak of
+        for bi, si, st, it in b.locations():
+            if not it and st["k"] == "assign" and st["place"]["p"] and st["place"]["p"][0]["k"] in ("deref", "field") and st["place"]["l"] <= b.arg_count:
+                simple = False
+            if not it and st["k"] == "assign" and st["place"]["p"] and st["place"]["p"][0]["k"] == "deref":
+                simple = False
+        if b.locals[0]["ty"] == "()":
+            simple = False
+        ds = b.defs.get(0, [])
+        if simple and len(ds) == 1 and not b.partial_defs.get(0):
+            bi, si, kind, node = ds[0]
+            e = b.expr_of_rvalue(node["rv"]) if kind == "assign" else b.expr_of_call(node)
+            first = 2 if is_closure else 1
+            roles = {l: "p%d" % (l - first + 1) for l in range(first, b.arg_count + 1)}
+            sh = shape(e, roles, 12)
+            if len(sh) <= 240 and "..." not in sh:
+                out = "\u03bb(%s)" % sh
+    _LAMBDA_CACHE[key] = out
+    return out
 
 
 def nice(path):
@@ -359,6 +466,7 @@ class Fact:
         return "%s(%s,%s)" % (self.op, self.l, self.r)
 
 
+CMP_CALLS = {"PartialOrd::lt": "Lt", "PartialOrd::le": "Le", "PartialOrd::gt": "Gt", "PartialOrd::ge": "Ge", "PartialEq::eq": "Eq", "PartialEq::ne": "Ne"}
 NEGATE = {"Eq": "Ne", "Ne": "Eq", "Lt": "Ge", "Ge": "Lt", "Le": "Gt", "Gt": "Le"}
 
 
@@ -391,6 +499,19 @@ def facts_of_cond(c, roles=None):
         res.append(Fact("variant_not_in" if c.neg else "variant_in", shape(e.x, roles), tuple(sorted(c.values)), c))
     elif tr is not None:
         res.append(Fact("true" if tr else "false", shape(e, roles), None, c))
+        # comparisons made through the comparison traits (tuples, strings, ...): also as ordering facts
+        if isinstance(e, Call) and len(e.args) == 2:
+            op = CMP_CALLS.get(nice(e.callee))
+            if op is not None:
+                if not tr:
+                    op = NEGATE[op]
+                ls, rs = shape(e.args[0], roles), shape(e.args[1], roles)
+                if op in ("Gt", "Ge"):
+                    op = FLIP[op]
+                    ls, rs = rs, ls
+                if op in ("Eq", "Ne") and rs < ls:
+                    ls, rs = rs, ls
+                res.append(Fact(op, ls, rs, c))
     else:
         res.append(Fact("not_in" if c.neg else "in", shape(e, roles), tuple(sorted(c.values)), c))
     return res
@@ -435,6 +556,13 @@ def root_local(e):
     """The local at the root of a place-like expression (through refs, derefs, fields, names)."""
     while True:
         if isinstance(e, Named):
+            # `let a = b;` (also a parameter of an inlined helper bound to the caller's variable): a is b
+            inner = e.x
+            while isinstance(inner, (Ref, Deref)):
+                inner = inner.x
+            if isinstance(inner, (Var, Named)):
+                e = inner
+                continue
             return e.local
         if isinstance(e, Var):
             return e.local
